@@ -34,8 +34,10 @@ static std::string run_case(const Box& b, bool is3d, Stats& st, int refill = 0) 
     std::vector<std::array<double, 3>> pts;
     for (double x : ax[0]) for (double y : ax[1]) for (double z : ax[2]) pts.push_back({x, y, z});
     // refill: the object lives on from an earlier use on a larger, shifted box (what a long-lived grid member does every iteration): nothing of the earlier fill may survive the re-dimensioning
-    GRID g = refill ? GRID(b.mn[0] - b.voxel, b.mn[1] - 0.5 * b.voxel, b.mn[2] - 2 * b.voxel, mx[0] + 2 * b.voxel, mx[1] + b.voxel, mx[2] + 0.5 * b.voxel, b.voxel, pts.size() + 8) : GRID(b.mn[0], b.mn[1], b.mn[2], mx[0], mx[1], mx[2], b.voxel, pts.size());
-    if (refill) { int k = 0; for (const auto& p : pts) { if (k % 3 == 0) g.place_object(100000 + k, p[0], p[1], p[2]); k++; } g.place_object(100001, b.mn[0] - 0.5 * b.voxel, b.mn[1], b.mn[2] - b.voxel); g.update_dimensions(pts.size(), b.mn[0], b.mn[1], b.mn[2], mx[0], mx[1], mx[2]); }
+    GRID g = refill == 1 ? GRID(b.mn[0] - b.voxel, b.mn[1] - 0.5 * b.voxel, b.mn[2] - 2 * b.voxel, mx[0] + 2 * b.voxel, mx[1] + b.voxel, mx[2] + 0.5 * b.voxel, b.voxel, pts.size() + 8)
+           : refill == 2 ? GRID(b.mn[0] + 3 * b.voxel, b.mn[1] - 2 * b.voxel, b.mn[2] + b.voxel, mx[0] + 3 * b.voxel, mx[1] - 2 * b.voxel, mx[2] + b.voxel, b.voxel, pts.size() + 8)   /* same numbers of voxels, elsewhere in space */
+           : GRID(b.mn[0], b.mn[1], b.mn[2], mx[0], mx[1], mx[2], b.voxel, pts.size());
+    if (refill) { const double sx = refill == 2 ? 3 * b.voxel : 0, sy = refill == 2 ? -2 * b.voxel : 0, sz = refill == 2 ? b.voxel : 0; int k = 0; for (const auto& p : pts) { if (k % 3 == 0) g.place_object(100000 + k, p[0] + sx, p[1] + sy, p[2] + sz); k++; } if (refill == 1) g.place_object(100001, b.mn[0] - 0.5 * b.voxel, b.mn[1], b.mn[2] - b.voxel); g.update_dimensions(pts.size(), b.mn[0], b.mn[1], b.mn[2], mx[0], mx[1], mx[2]); }
     auto nb = g.get_nb_voxels();
     char buf[400];
     std::map<size_t, int> occupant;           // voxel -> last object placed (uspg_3d keeps one object per voxel by design)
@@ -117,7 +119,7 @@ static void explore(Result& R) {
     std::vector<double> exts = th ? std::vector<double>{1, 2, 2.5, 3, 4} : std::vector<double>{1, 2.5, 4};
     std::vector<double> voxels = {1.0, 0.5, 0.1, 0.3, 1e-6};
     Stats st; long boxes = 0, cases = 0; long exact_multiple = 0;
-    for (int kind : {3, 4}) for (auto& m : mins) for (double mag : mags) for (double ex : exts) for (double ey : exts) for (double ez : exts) for (double v : voxels) for (int rf = 0; rf < 2; rf++) {
+    for (int kind : {3, 4}) for (auto& m : mins) for (double mag : mags) for (double ex : exts) for (double ey : exts) for (double ez : exts) for (double v : voxels) for (int rf = 0; rf < 3; rf++) {
         if (rf && !th && (ex != ey)) continue;   /* quick: the re-dimensioned object on the boxes with equal x/y extents */
         if (R.out_of_time(0.9)) { R.cap("deadline"); goto done; }
         Case c; c.grid_kind = kind; c.refill = rf; for (int k = 0; k < 3; k++) c.b.mn[k] = m[k] * mag; c.b.ext[0] = ex; c.b.ext[1] = ey; c.b.ext[2] = ez; c.b.voxel = v;
@@ -125,7 +127,7 @@ static void explore(Result& R) {
         cases++; if (ex == std::floor(ex) || ey == std::floor(ey) || ez == std::floor(ez)) exact_multiple++;
         std::string err = run_any(c, st);
         if (!err.empty()) {
-            std::string key = clause_of(err) + "|uspg_" + std::to_string(kind) + "d" + (rf ? "|refilled" : "");
+            std::string key = clause_of(err) + "|uspg_" + std::to_string(kind) + "d" + (rf == 1 ? "|refilled" : rf == 2 ? "|refilled-same-voxel-count" : "");
             R.violation(key, err + " [box " + box_json(c.b) + "]", "grid=" + std::to_string(kind) + "\nrefill=" + std::to_string(rf) + "\nbox=" + box_text(c.b) + "\n");
         }
         if (cases % 1500 == 1) R.sample("{\"grid\":\"uspg_" + std::to_string(kind) + "d\",\"box\":" + box_json(c.b) + "}");
